@@ -1,4 +1,5 @@
 """C10 — WAL recovery yields only intact appended entries; truncation keeps newer ones."""
+import re
 from .facts import callee, op_place, op_local
 from .lib import src_of_operand, src_of_place, is_callee, TRANSPARENT, switch_info
 from . import lib2
@@ -23,6 +24,10 @@ def run(ck, ctx):
     ck.rule("R10.6", "acceptance agreement: WalEntry::decode (and any sibling decoder) rejects a frame only for truncation "
                      "(input length tests, checked_add overflow) or checksum mismatch - never for a size/shape limit the writer does "
                      "not enforce, which would end recovery at an entry that was appended and fsynced intact")
+    ck.rule("R10.8", "append order is kept: no function of wal.rs reorders recovered entries - no sort*/reverse/swap/rotate/dedup on a "
+                     "sequence of WalEntry or ReplicationDelta, no keyed collection of them (stamps come from independent per-shard clocks "
+                     "and are neither unique nor monotone inside a file, so any stamp-keyed order differs from the append order); only the "
+                     "list of file *names* is sorted (R10.3)")
     from . import bounds as _bounds
     ck.rule("R10.7", _bounds.TEXT % "the WAL, segment and checkpoint decoders")
     ck.nd("bit-identity of payloads is delegated to CRC32 (detection probability not analysed)")
@@ -36,6 +41,7 @@ def run(ck, ctx):
         _r104(ck, prog, cfg)
         file_loop_rule(ck, prog, cfg, "R10.3")
         r106(ck, prog, cfg, "R10.6")
+        _r108(ck, prog, cfg)
         _bounds.rule(ck, prog, cfg, "R10.7", ("src/streaming/wal.rs",), "a WAL file torn at that offset", floor=6, tag=_tag(cfg))
 
 
@@ -429,3 +435,30 @@ def file_loop_rule(ck, prog, cfg, rid):
                  "the loop over the WAL files can be left before all files were read (line %s): intact, fsynced entries of the files behind "
                  "that point are not replayed" % (rec.term(leaks[0][0]).get("ln") if leaks else "?"), rec.where(),
                  detail="the loop ends only on exhaustion of the file list")
+
+
+def _r108(ck, prog, cfg):
+    REORDER = re.compile(r"<impl \[.*\]>::(sort\w*|reverse|swap|rotate_\w+|select_nth\w*)(::<.*>)?$|Vec::<.*>::(dedup\w*|swap_remove|insert)(::<.*>)?$|"
+                         r"BTreeMap::<.*>::insert$|BinaryHeap::<.*>::push$|Iterator>::rev$|itertools.*sorted")
+    ELEM = re.compile(r"WalEntry|ReplicationDelta")
+    n = 0
+    scanned = 0
+    for f in prog.lib_fns():
+        if f.file != "src/streaming/wal.rs" or "::tests::" in f.id:
+            continue
+        scanned += 1
+        for b, t in f.calls():
+            c = t.get("fnargs") or callee(t)
+            if not REORDER.search(c):
+                continue
+            recv_ty = str(f.locals[op_local(t["args"][0])]) if t.get("args") and op_local(t["args"][0]) is not None else ""
+            if not (ELEM.search(c) or ELEM.search(recv_ty)):
+                continue
+            n += 1
+            fid = re.sub(r"\{closure#\d+\}", "{closure}", f.id.replace("streaming::wal::", ""))
+            ck.bad("R10.8", "%s:%s#%d%s" % (fid, callee(t).rsplit("::", 1)[-1].split("<")[0], n, _tag(cfg)),
+                   "recovered WAL entries are reordered (%s): within a file they must come back in append order - stamps of different shards "
+                   "interleave non-monotonically, so a stamp sort moves entries relative to each other" % c[-70:], f.where(t["ln"]))
+    ck.floor("R10.8:functions-scanned" + _tag(cfg), scanned, 20)
+    if n == 0:
+        ck.ok("R10.8", "wal.rs:no-reordering-of-entries" + _tag(cfg), "%d functions scanned" % scanned)
